@@ -31,9 +31,17 @@ build() { # $1 = default|unimock
 }
 
 run_part() { # $1 = build, $2 = part
-  timeout -k 5 1500 "$BIN/gensim-$1" check "$ID" --tier "$TIER" --verif "$VERIF" --part "$2"
+  local limit=50; [ "$TIER" = thorough ] && limit=900
+  timeout -k 5 $limit "$BIN/gensim-$1" check "$ID" --tier "$TIER" --verif "$VERIF" --part "$2"
   local code=$?
-  if [ $code -ge 124 ]; then echo "HARNESS-ERROR: gensim ($1 build) timed out or died (exit $code)" >&2; return 2; fi
+  if [ $code -ge 124 ]; then
+    # killed by a signal (stack overflow, abort) or hung (the executor and the corpus bodies are
+    # bounded, so only generated code can loop): locate and minimise the run in child processes
+    timeout -k 5 900 "$BIN/gensim-$1" crash-triage "$ID" --tier "$TIER" --verif "$VERIF" --part "$2"
+    code=$?
+    if [ $code -ge 124 ]; then echo "HARNESS-ERROR: crash triage timed out or died (exit $code)" >&2; return 2; fi
+    return $code
+  fi
   if [ $code -eq 0 ] && [ $FALLBACK -eq 1 ]; then
     echo "HARNESS-ERROR: part of the corpus does not compile against the current /repo working tree and the rest showed no violation: no verdict" >&2
     return 2
